@@ -127,6 +127,8 @@ def judge(cfg, name, args):
 
 def _judge(cfg, name, args, variant):
     ts = "".join(a[0] for a in args)
+    if any(a[0] == "B" and a[2] not in (0, 1) for a in args):
+        return None, None        # not a boolean: no such input exists outside error suppression
     vals = [a[2][1] if isinstance(a[2], list) else a[2] for a in args]
     r, b = cfg["r"], cfg["b"]
     prog = opgrid.single(cfg, name, args, "ignore" if variant == "ignore" else "normal", inplace=variant == "inplace", alias=variant == "alias")
